@@ -2042,6 +2042,30 @@ static int32 parseSSLHandshake(ssl_t *ssl, char *inbuf, uint32 len)
             c = ssl->fragMessage + ssl->hshakeHeadLen;
             end = ssl->fragMessage + ssl->fragTotal;
             hsLen = ssl->fragTotal - ssl->hshakeHeadLen;
+            /* Finished and CertificateVerify are checked against a snapshot
+               of the handshake hash that does not include the message
+               itself. The snapshot taken when the first fragment arrived
+               lived in a local variable of an earlier call; the reassembled
+               message enters the hash only below, so take it now. (Without
+               it the comparison ran against an uninitialised buffer.) */
+            if (ssl->hsState == SSL_HS_FINISHED)
+            {
+                if (sslSnapshotHSHash(ssl, hsMsgHash, PS_FALSE, PS_TRUE) <= 0)
+                {
+                    ssl->err = SSL_ALERT_INTERNAL_ERROR;
+                    return MATRIXSSL_ERROR;
+                }
+            }
+#ifdef USE_CLIENT_AUTH
+            if (ssl->hsState == SSL_HS_CERTIFICATE_VERIFY)
+            {
+                if (sslSnapshotHSHash(ssl, hsMsgHash, PS_FALSE, PS_FALSE) <= 0)
+                {
+                    ssl->err = SSL_ALERT_INTERNAL_ERROR;
+                    return MATRIXSSL_ERROR;
+                }
+            }
+#endif /* USE_CLIENT_AUTH */
             goto SKIP_HSHEADER_PARSE;
         }
         else
